@@ -54,7 +54,10 @@ def _graphs():
     return {"g:surface": {
         "nodes": [("n:apple", "apple", []), ("n:banana", "banana", []), ("n:cherry", "cherry", [])],
         "edges": [("e1", "n:apple", "n:banana", 0.9, "supports"), ("e2", "n:banana", "n:cherry", 0.9, "supports"),
-                  ("e3", "n:cherry", "n:apple", 0.5, "associates")]}}
+                  ("e3", "n:cherry", "n:apple", 0.5, "associates")]},
+        # a second active graph that matches the same texts: per-graph cache entries are combined per turn
+        "g:two": {"nodes": [("m:apple", "apple", []), ("m:banana", "banana", []), ("m:date", "date", [])],
+                  "edges": [("f1", "m:apple", "m:date", 0.8, "supports"), ("f2", "m:banana", "m:date", 0.7, "associates")]}}
 
 
 def _proj_t1(t1):
